@@ -42,6 +42,9 @@ var verifState struct {
 	// filled by hooks that run on the goroutine that just assigned the field, so
 	// no tunnel field is ever read from a foreign goroutine here.
 	byConn map[interface{}]*Tunnel
+	// sent maps a tunnel to the connection identifier the client last presented for it (the header as received);
+	// events name a tunnel by that, and carry the key the gateway files it under separately
+	sent map[*Tunnel]string
 }
 
 type verifCmd struct {
@@ -66,6 +69,7 @@ func init() {
 	verifState.w = bufio.NewWriter(conn)
 	verifState.gates = make(map[string]*verifGate)
 	verifState.byConn = make(map[interface{}]*Tunnel)
+	verifState.sent = make(map[*Tunnel]string)
 	verifState.on = true
 	go verifCommands(conn)
 }
@@ -227,7 +231,19 @@ func verifHook(point string, t *Tunnel, args ...interface{}) {
 	cid := ""
 	if t != nil {
 		cid = t.RDGId
+		if point == "gw.enter" && len(args) >= 5 {
+			if hdr, ok := args[4].(string); ok {
+				if len(verifState.sent) > 20000 {
+					verifState.sent = make(map[*Tunnel]string)
+				}
+				verifState.sent[t] = hdr
+			}
+		}
+		if hdr, ok := verifState.sent[t]; ok {
+			cid = hdr
+		}
 		ev["cid"] = cid
+		ev["key"] = t.RDGId
 		ev["tun"] = fmt.Sprintf("%p", t)
 		switch point {
 		case "ws.open", "legacy.in.attached":
